@@ -50,6 +50,27 @@ def build_fields(prog, t, what):
     return ctor_fields(prog, t, "ScanTrace", what)
 
 
+def prepend_form(ev, fn_term, module):
+    """fn_term(args, xformed, ret) prepends the initial value args[0] to the stacked values ret[1], leaf by leaf, with JAX's own dtype promotion:
+    tree_map(concatenate([array(init)[newaxis] | expand_dims(array(init), 0), stacked], axis 0), args[0], ret[1]) - whoever defines the function"""
+    A_, R_ = P("$args"), P("$ret")
+    t = ev.apply(fn_term, [A_, P("$x"), R_], module=module)
+    init, xs = mk_proj(A_, 0), mk_proj(R_, 1)
+    if not (is_t(t, "treemap") and t[2] == (init, xs) and is_call(t[1], "concatenate")):
+        return False, t
+    c = t[1]
+    lst = c[2][0] if c[2] else None
+    if not (is_t(lst, "list") and len(lst[1]) == 2 and lst[1][1] == ("leaf", xs)):
+        return False, t
+    if dict(c[3]).get("axis", C(0)) != C(0) or (len(c[2]) > 1 and c[2][1] != C(0)) or dict(c[3]).get("dtype") or any(is_mcall(x, "astype") for x in subterms(c)):
+        return False, t
+    h = lst[1][0]
+    arr = lambda x: x == ("leaf", init) or ((is_call(x, "array") or is_call(x, "asarray")) and x[2] == (("leaf", init),) and not dict(x[3]).get("dtype"))
+    head_ok = (is_t(h, "index") and h[2] in (C(None), ("global", "jax.numpy.newaxis")) and arr(h[1])) \
+        or (is_call(h, "expand_dims") and arr(h[2][0]) and (h[2][1:] == (C(0),) or dict(h[3]).get("axis") == C(0)))
+    return bool(head_ok), t
+
+
 def analyse(obs: Obs, prog):
     # ---------------------------------------------------------------- the scan length is an Optional[int]: 0 is a length, None is "infer from xs"
     # (a truthiness test - `length or ...`, `if length:` - sends an explicit length 0 down the inference path: scan(n=0) with xs=None raises IndexError)
@@ -361,15 +382,11 @@ def analyse(obs: Obs, prog):
     A, X, R = P("$args"), P("$xf"), P("$ret")
     # prepend_initial_acc
     mm, pf = prog.func("prepend_initial_acc", MOD)
-    rp = Evaluator(prog).eval_fn(pf, mm)
-    okp = is_t(rp.ret, "treemap") and rp.ret[2] == (mk_proj(P("args"), 0), mk_proj(P("ret"), 1)) and is_call(rp.ret[1], "concatenate")
-    if okp:
-        lst = rp.ret[1][2][0]
-        okp = is_t(lst, "list") and len(lst[1]) == 2 and mentions(lst[1][0], ("leaf", mk_proj(P("args"), 0))) and lst[1][1] == ("leaf", mk_proj(P("ret"), 1))
-        # the history takes the dtype JAX promotion gives it (an integer-typed initial value with a float-producing kernel must not truncate the history)
-        okp = okp and not dict(rp.ret[1][3]).get("dtype") and not any(is_mcall(x, "astype") for x in subterms(rp.ret[1]))
+    evp_ = Evaluator(prog)
+    okp, tp_ = prepend_form(evp_, G(mm.dotted + ".prepend_initial_acc"), mm)
+    rp = type("R", (), {"ret": tp_})()
     obs.add({"C12", "C16"}, "COMPOSE", "prepend_initial_acc", okp, derived=rp.ret, expected="tree_map(concatenate([init[newaxis], stacked]), args[0], ret[1])", where=f"{mm.rel}:{pf.lineno}")
-    is_ppa = lambda t: is_t(t, "global") and t[1].endswith("prepend_initial_acc")
+    is_ppa = lambda t: t is not None and prepend_form(ev, t, m)[0]  # by what the function does (prepend_initial_acc or an equivalent local function)
     ident_pre = lambda t: ev.closure_of(t) is not None and ev.apply(t, [("star", P("$a"))], module=m) in (P("$a"), ("tuple", (("star", P("$a")),)))
 
     # accumulate: f.map(ret -> (ret, ret)).scan().dimap(pre=identity, post=prepend_initial_acc)
